@@ -68,6 +68,27 @@ claim("C17",
       "the count limit holds afterwards, dropped counters never decrease, type invariant 0 <= nFront <= 5; truncate as in C04. Known finding (class-split): a count limit of 0 keeps everything.",
       _TB + "applyValueLimits (recursion over log.Value, other module) is a trusted contract; sync.Pool index maps are assumed empty and exclusively owned. Not decided: see evidence.",
       "DESIGN.md 4 C17")
+claim("C02",
+      "Proof for both number types and every map content: valueMap.measure adds exactly `value` to exactly the stream the limiter selects (new streams start at 0) and leaves every other stream untouched, under the mutex with the "
+      "guarded-by obligations on the stream map; sum.delta reports every stream's value over [old start, t], then clears the map and moves the start; sum.cumulative reports the same values and keeps everything.",
+      _TB + "int64 overflow assumed absent; float64 only per step. Map iteration is an arbitrary present element per step. Not decided: reader goroutines, ghost-total lock invariant (see evidence).",
+      "DESIGN.md 4 C02")
+claim("C07",
+      "Proof for all values, bounds and scales: explicit buckets - bin/sum step contracts, measure places a value in the (lower, upper] bucket found by the binary-search contract and only in the bucket set the limiter selects, new bucket sets have len(bounds)+1 counts; "
+      "exponential - getBin for scale <= 0 against an integer specification on the Frexp exponent (bit-vector exact), scaleChange (result bound, fit condition, termination), record (scale monotone and >= -10, a dropped underflow measurement is not counted), configuration validation. "
+      "Known finding (canary lemma): int64 values are bucketed by their float64 rounding.",
+      _TB + "math.Frexp is a library model (IEEE fields), sort.SearchFloat64s a library model. Not decided: getBin for scale > 0 (math.Log), bucket window arithmetic, sum-of-counts invariant.",
+      "DESIGN.md 4 C07")
+claim("C08",
+      "Proof that the contract DIFFERENCE between the sum aggregator's delta and cumulative collection is exactly the property: same points (value, attributes, count of points), delta over [previous start, t] then forget and move the start, "
+      "cumulative over [fixed start, t] and keep.",
+      _TB + "Other aggregators (precomputed sum, gauge, histograms) and callback histories are not yet under contract.",
+      "DESIGN.md 4 C08")
+claim("C12",
+      "Proof for every map content and limit: limiter.Attributes answers the attribute set itself when it already has a stream or fewer than limit-1 streams exist, otherwise the single overflow set, and is the identity for non-positive limits; "
+      "sum and explicit-histogram measure index their stream map only with that answer's identity.",
+      _TB + "Not decided: the cardinality bound as a lock invariant, filters, view matching (see evidence).",
+      "DESIGN.md 4 C12")
 _todo = "check not built yet in this session (engine exists; contracts for this property's functions still to be written)"
-for _p in ["C01","C02","C06","C07","C08","C11","C12","C15","C16"]:
+for _p in ["C01","C06","C11","C15","C16"]:
     na(_p, _todo)
